@@ -52,10 +52,12 @@ Without(l, x) == SelectSeq(l, LAMBDA y : y # x)
 ListRef(l, a) ==
     CASE a.op = "append"  -> IF a.s = BadSel THEN [list |-> l, ok |-> FALSE] ELSE [list |-> Append(Without(l, a.s), a.s), ok |-> TRUE]
       [] a.op = "settext" -> IF BadSel \in Range(a.ss) \/ a.ss = <<>> THEN [list |-> l, ok |-> FALSE] ELSE [list |-> a.ss, ok |-> TRUE]
+      \* item assignment (index counted from the front or from the end): the member at that place is replaced, the order stays
+      [] a.op = "setitem" -> IF a.s = BadSel THEN [list |-> l, ok |-> FALSE] ELSE [list |-> [l EXCEPT ![a.i] = a.s], ok |-> TRUE]
 ListFailing(l, a, out, post) ==
     IF out \in DOMExc THEN (IF post = l THEN "ok" ELSE "RejectedUnchanged")
     ELSE IF ~ListRef(l, a).ok THEN (IF a.mode = "log" /\ post = l THEN "ok" ELSE "InvalidMemberRejectsWholeList")
-    ELSE IF a.op = "settext" THEN (IF post = ListRef(l, a).list THEN "ok" ELSE "OrderPreserved")
+    ELSE IF a.op \in {"settext", "setitem"} THEN (IF post = ListRef(l, a).list THEN "ok" ELSE "OrderPreserved")
     ELSE IF post = ListRef(l, a).list THEN "ok" ELSE "AppendOfPresentSelectorMovesItToEnd"
 ListViewFailing(o) == IF o.length # Len(o.list) THEN "LengthCountsSelectors"
                       ELSE IF o.reparsed # o.list THEN "SelectorTextReparsesToSameList" ELSE "ok"
